@@ -14,7 +14,7 @@ class SqlUnsupported(Exception):
 
 TOKEN = re.compile(r"""
     \s*(?:
-      (?P<hole>\x00H\d+\x00)
+      (?P<hole>\x00[HL]\d+\x00)
     | (?P<num>\d+(?:\.\d+)?)
     | (?P<str>"[^"]*"|'[^']*')
     | (?P<name>[A-Za-z_][A-Za-z_0-9.]*)
@@ -37,7 +37,8 @@ def tokenize(text):
             raise SqlUnsupported('cannot tokenize %r at %d' % (text, pos))
         pos = m.end()
         if m.group('hole'):
-            out.append(('hole', int(m.group('hole')[2:-1])))
+            h = m.group('hole')
+            out.append(('hole' if h[1] == 'H' else 'listhole', int(h[2:-1])))
         elif m.group('num'):
             s = m.group('num')
             out.append(('num', float(s) if '.' in s else int(s)))
@@ -88,6 +89,8 @@ class P:
             return ('param', self.nparams - 1)
         if tok[0] == 'hole':
             return ('hole', tok[1])
+        if tok[0] == 'listhole':
+            return ('listhole', tok[1])
         if tok[0] == 'num':
             return ('lit', tok[1])
         if tok[0] == 'str':
